@@ -270,6 +270,14 @@ func C12_Literals() {
 	case 7:
 		p = terminal.Regexp("r", "ID", "identifier", `[a-z]+`, 0)
 	}
+	// the same literal inside whitespace trimming (errors raised inside a
+	// literal are moved past following whitespace by RightTrim)
+	switch rt.Choose("trim", 3) {
+	case 1:
+		p = text.RightTrim(p, text.WsSpacesNl)
+	case 2:
+		p = text.Trim(p)
+	}
 	a, b := places(in)
 	delta := b.base - a.base
 	na, _, ea := p.Parse(a.ctx, data.EmptyIntMap, parsley.Pos(a.base+c))
@@ -324,6 +332,11 @@ func C12_Tokens() {
 		second = text.RightTrim(second, mR)
 	}
 	root := combinator.Sentence(combinator.SeqOf(text.RightTrim(terminal.Rune('a'), mR), second))
+	if rt.Choose("inner", 2) == 1 {
+		// a sequence inside RightTrim: an error raised inside it, at a position
+		// followed by whitespace, is moved past that whitespace
+		root = combinator.Sentence(text.RightTrim(combinator.SeqOf(terminal.Rune('a'), terminal.Rune('b')), mR))
+	}
 	compareRoot("tokens", in, root, false)
 }
 
